@@ -89,7 +89,7 @@ func init() {
 		"that the passes compute the right strings (single line, RE2-parsable, \\s always together with \\x0b, no inline flag group surviving): value-level facts about text produced by a third-party optimiser.",
 		nil,
 		func(c *Ctx, tier string) []*Result {
-			return []*Result{c.RuleEscParity(), c.RuleFlagSet(), keyHas(c.RuleMapOrder(), 1, "range field Flags"), c.RuleSanitize()}
+			return []*Result{c.RuleEscParity(), c.RuleFlagSet(), keyHas(c.RuleMapOrder(), 1, "range field Flags"), c.RuleSanitize(), c.RuleTemplate(c.cmdFns("update")), c.RuleEscMatch()}
 		})
 
 	prop("C03", "other",
@@ -119,7 +119,7 @@ func init() {
 		nil,
 		func(c *Ctx, tier string) []*Result {
 			return []*Result{keyHas(c.RuleMapOrder(), 2, "buildIncludeExceptString", "replaceSuffixes"), c.RuleOrderKey(),
-				keyHas(c.RuleRxGroups(), 1, "parseLine"), keyHas(c.RuleScanErr(), 3, "replaceSuffixes", "removeExclusions", "buildinclusionLineMap")}
+				keyHas(c.RuleRxGroups(), 1, "parseLine"), keyHas(c.RuleScanErr(), 3, "replaceSuffixes", "removeExclusions", "buildinclusionLineMap"), c.RuleSuffixOps()}
 		})
 
 	prop("C07", "other",
@@ -128,7 +128,7 @@ func init() {
 		"anything outside the fragment; that undefined names stay literal and that definition lines contribute no entry (value-level).",
 		[]string{"definitions are acyclic and contain no computed names (quantifier of C07)"},
 		func(c *Ctx, tier string) []*Result {
-			return []*Result{c.RuleDefFragment(), keyHas(c.RuleMapOrder(), 3, "expandDefinitions")}
+			return []*Result{c.RuleDefFragment(), keyHas(c.RuleMapOrder(), 3, "expandDefinitions"), keyHas(c.RuleIsoOwner(), 2, "Parser.variables")}
 		})
 
 	prop("C08", "other",
@@ -137,7 +137,7 @@ func init() {
 		"byte equality of the reports (the compare summary lines are value-level).",
 		nil,
 		func(c *Ctx, tier string) []*Result {
-			return []*Result{c.RuleIsoFresh(), c.RuleIsoGlobal(), c.RuleSiblingRuleId()}
+			return []*Result{c.RuleIsoFresh(), c.RuleIsoGlobal("update", "compare", "format"), c.RuleSiblingRuleId(), c.RuleWalkSkip()}
 		})
 
 	prop("C09", "other",
@@ -146,7 +146,8 @@ func init() {
 		"canonicity and idempotence of the layout (value-level; reading the code shows they do not hold at the empty-file boundary — noted in DESIGN.md, not claimed).",
 		nil,
 		func(c *Ctx, tier string) []*Result {
-			return []*Result{keyHas(c.RuleFsGuard([]string{"format"}), 1, "cmd format"), c.RuleFsSame([]string{"format"})}
+			return []*Result{keyHas(c.RuleFsGuard([]string{"format"}), 1, "cmd format"), c.RuleFsSame([]string{"format"}),
+				keyHas(c.RuleErrFlags(), 1, "cmd.processAll:"), keyHas(c.RuleFsAlways([]string{"format"}), 1, "cmd format")}
 		})
 
 	prop("C10", "other",
@@ -159,7 +160,7 @@ func init() {
 			drop, handle := c.RuleErrCached()
 			_ = drop
 			return []*Result{inFns(c.RuleRxRebuild(), fmtFns, 7), c.RuleRxDisjoint(false), inFns(c.RuleRxGroups(), fmtFns, 7),
-				keyHas(handle, 2, "cmd.processFile:"), keyHas(c.RuleErrLog(), 2, "cmd.processFile:")}
+				keyHas(handle, 2, "cmd.processFile:"), keyHas(c.RuleErrLog(), 2, "cmd.processFile:"), c.RuleFormatOnly()}
 		})
 
 	prop("C11", "other",
@@ -170,7 +171,7 @@ func init() {
 		func(c *Ctx, tier string) []*Result {
 			upd := c.cmdFns("update")
 			return []*Result{keyHas(c.RuleFsTarget([]string{"update"}), 1, "cmd update"), c.RuleSplitJoinFrame(), keyHas(inFns(c.RuleRxRebuild(), upd, 1), 1, "updateRegex"),
-				keyHas(c.RuleValidate(), 1, "cmd.processRule")}
+				keyHas(c.RuleValidate(), 1, "cmd.processRule"), c.RuleTemplate(upd)}
 		})
 
 	prop("C12", "other",
@@ -179,7 +180,8 @@ func init() {
 		"the round trip for regexes whose own text contains '\"@rx ' (value-level); that a second update is a no-op.",
 		nil,
 		func(c *Ctx, tier string) []*Result {
-			return []*Result{c.RuleSiblingLocator(), c.RuleCompareVerdict(), keyHas(c.RuleRxGroups(), 2, "readCurrentRegex", "updateRegex")}
+			return []*Result{c.RuleSiblingLocator(), c.RuleCompareVerdict(), keyHas(c.RuleRxGroups(), 2, "readCurrentRegex", "updateRegex"),
+				keyHas(c.RuleErrFlags(), 1, "cmd.performCompare:"), c.RuleTemplate(c.cmdFns("update")), keyHas(c.RuleRxRebuild(), 1, "updateRegex")}
 		})
 
 	prop("C13", "other",
@@ -190,7 +192,8 @@ func init() {
 		func(c *Ctx, tier string) []*Result {
 			return []*Result{keyHas(c.RuleFsGuard([]string{"renumber-tests"}), 1, "cmd renumber-tests"), c.RuleFsSame([]string{"renumber-tests"}),
 				keyHas(c.RuleFsTarget([]string{"renumber-tests"}), 1, "cmd renumber-tests"), keyHas(c.RuleRxRebuild(), 2, "processYaml"),
-				keyHas(c.RuleScanErr(), 1, "processYaml"), inPkg(c.RuleRxGroups(), 3, "util")}
+				keyHas(c.RuleScanErr(), 1, "processYaml"), inPkg(c.RuleRxGroups(), 3, "util"), c.RuleIsoGlobal("renumber-tests"),
+				keyHas(c.RuleErrFlags(), 1, "RenumberTests:"), c.RuleFsAlways([]string{"renumber-tests"})}
 		})
 
 	prop("C14", "other",
@@ -199,7 +202,8 @@ func init() {
 		"that all other text is untouched (value-level; a missing final newline is added).",
 		[]string{"semver.NewVersion accepts a subset of its anchored versionRegex (read from the library source in the module cache)", "the year is four digits (quantifier of C14; the command does not validate it)"},
 		func(c *Ctx, tier string) []*Result {
-			return []*Result{c.RuleRxIncl(), keyHas(c.RuleFsTarget([]string{"update-copyright"}), 1, "cmd update-copyright"), keyHas(c.RuleScanErr(), 1, "updateRules")}
+			return []*Result{c.RuleRxIncl(), keyHas(c.RuleFsTarget([]string{"update-copyright"}), 1, "cmd update-copyright"), keyHas(c.RuleScanErr(), 1, "updateRules"),
+				c.RuleFsAlways([]string{"update-copyright"}), c.RuleTemplate(c.cmdFns("update-copyright")), c.RuleIsoGlobal("update-copyright")}
 		})
 
 	prop("C15", "other",
@@ -226,7 +230,7 @@ func init() {
 		"absence of all runtime faults (about ninety compiler-unproven bounds checks remain unexamined) and termination.",
 		nil,
 		func(c *Ctx, tier string) []*Result {
-			return []*Result{c.RuleEscMatch(), c.RuleScanBound(), c.RuleRxGroups()}
+			return []*Result{c.RuleEscMatch(), c.RuleScanBound(), c.RuleRxGroups(), c.RuleIdxParam(), keyHas(c.RuleValidate(), 1, "odd-length")}
 		})
 
 	prop("C20", "other",
